@@ -19,7 +19,7 @@ def sched_knobs(rng, allow_stall=True):
     r = rng.random()
     if r < 0.2:
         # priority schedules (PCT): the highest-priority runnable thread always runs, re-decided at every line
-        k['line_mean'] = rng.choice([1, 2])
+        k['line_mean'] = rng.choice([1, 2, 3, 5])
         k['pct'] = rng.choice([1, 2, 3])
         k['pct_horizon'] = rng.choice([2000, 20000, 200000])
     elif r < 0.35 and line_mean:
